@@ -19,6 +19,7 @@ registration; moreover no `categories` entry of that block re-assigns the countr
 -/
 import Rs1090.Proofs.TailJa
 import Rs1090.Proofs.TailInj
+import Rs1090.Proofs.TailInfo
 namespace Rs1090.Props.C14
 open Rs1090 Rs1090.Model.Tail Rs1090.Gen.Tail Rs1090.Proofs.Tail
 
@@ -116,6 +117,78 @@ theorem country_reported (h : Nat) (hh : h < 2 ^ 32) (r : Reg) (e : tail h = .ok
       cases hcc : c.country with
       | none => rfl
       | some x => rw [hcc] at this; cases this
+
+/-! ### `aircraft_information` with its four panic sites (audit-c M5)
+
+`info` (used by `country_reported`) is the lookup on already-parsed data and has no panic site; the Rust
+function has four (`patterns.rs`: the JSON `unwrap` at the first use of `PATTERNS`, `&start[2..]` and
+`from_str_radix(..).unwrap()` for `start` and `end` of every visited entry, `Regex::new(..).unwrap()` for
+every visited category) and one `Err` path (the parse of `icao24`).  `Model.Tail.infoChecked` / `infoStr`
+perform them as checked operations on the texts regenerated from patterns.json; the theorems below say
+that on those texts none of the four sites is reached, so the totalised `info` is what the function
+computes. -/
+
+/-- the three generated facts, checked by the kernel on the regenerated data: the file loads; every
+    `start` / `end` begins with two one-byte characters (`0x`) followed by a hexadecimal `u32`, equal to the
+    bound the model's block table holds; every category pattern is in the regex subset the extractor
+    accepts (for which `Regex::new` succeeds). -/
+theorem patterns_facts :
+    loadPatterns = .ok () ∧ boundsOk blockBounds blocks = true ∧
+    blocks.all (fun b => catsCompiled b.cats) = true :=
+  ⟨patterns_load, bounds_ok, cats_compiled⟩
+
+/-- the checked function is the plain lookup (so `country_reported` is about the checked one too) -/
+theorem info_checked_eq (h : Nat) : infoChecked h = info h := infoChecked_eq h
+
+/-- **`aircraft_information` never panics**: for every `u32` address none of the four sites is reached and
+    the result is a value. -/
+theorem info_ne_panic (h : Nat) (hh : h < 2 ^ 32) : ∃ i, infoChecked h = .ok i := by
+  rw [infoChecked_eq]
+  obtain ⟨o, ho⟩ := tail_total h hh
+  exact ⟨infoOf (o.map render) (blockOf h), by unfold info tailStr; rw [ho]; rfl⟩
+
+/-- parsing the address text yields a `u32` -/
+theorem hexDigits_lt : ∀ (cs : List Char) (acc v : Nat), acc < 2 ^ 32 → hexDigits cs acc = some v → v < 2 ^ 32 := by
+  intro cs
+  induction cs with
+  | nil => intro acc v ha h; cases h; exact ha
+  | cons c cs ih =>
+    intro acc v ha h
+    unfold hexDigits at h
+    split at h
+    · split at h
+      · rename_i hlt; exact ih _ v hlt h
+      · cases h
+    · cases h
+
+theorem parseHexU32_lt (s : List Char) (v : Nat) (h : parseHexU32 s = some v) : v < 2 ^ 32 := by
+  unfold parseHexU32 at h
+  split at h
+  · cases h
+  · exact hexDigits_lt _ 0 v (by decide) h
+
+/-- … on the TEXT of the address: for every string, `aircraft_information(icao24, None)` returns a value
+    or the parse error, never a panic. -/
+theorem info_str_total (icao24 : List Char) :
+    infoStr icao24 = .err .parse ∨ ∃ i, infoStr icao24 = .ok i := by
+  unfold infoStr
+  cases hp : parseHexU32 icao24 with
+  | none => exact .inl rfl
+  | some h => exact .inr (info_ne_panic h (parseHexU32_lt _ _ hp))
+
+/-- the checked operations do panic on malformed data (they are not vacuous): a bound without the `0x`
+    prefix, one that is too short, one with a multi-byte character across byte 2, and an uncompiled
+    category pattern. -/
+example : parseBound "0x3C0000" = .ok 0x3C0000 := by decide +kernel
+example : parseBound "zz380000" = .ok 0x380000 := by decide +kernel   -- `&start[2..]` does not look at the prefix
+example : parseBound "0xG" = .panic .unwrapErr := by decide +kernel
+example : parseBound "0x" = .panic .unwrapErr := by decide +kernel
+example : parseBound "0" = .panic .slice := by decide +kernel
+example : parseBound "0é12" = .panic .slice := by decide +kernel
+example : (catFindChecked ['F'] [⟨"(?i)^f", none, none, none⟩]).isPanic = true := by decide
+example : infoStr "3949f9".toList = infoChecked 0x3949f9 := by decide +kernel
+example : infoStr "xyz".toList = .err .parse := by decide +kernel
+example : infoStr "100000000".toList = .err .parse := by decide +kernel
 
 /-! ### Non-vacuity: the twelve addresses of the repository's tests decode as the tests say -/
 example : tailStr 0x71bd54 = .ok (some ['H', 'L', '7', '5', '5', '4']) := by decide +kernel
